@@ -3,6 +3,7 @@ import LyModel.Ctx.LemmasUsable
 import LyModel.Ctx.LemmasLatest
 import LyModel.Ctx.LemmasAmend
 import LyModel.Ctx.LemmasRestore
+import LyModel.Ctx.LemmasImplStage
 import LyModel.Ctx.Examples
 /-!
 # C09 — a failed schema operation leaves the context as it was
@@ -227,6 +228,149 @@ theorem data_stays_usable_partial_load (s : Ctx) (name : Bytes) (rev : Option By
     simp only [run, hf, hno]
   rw [hr]
   exact untouched_revert h1
+
+/-- the part of a call before the compilation stage: `lys_parse_in` / `lys_parse_load`, then `_lys_set_implemented` -/
+def preForward : Op → M Unit
+  | .parse src feats => do
+    let s ← getS
+    let k ← parseIn (parseFuel s) src none
+    setImplementedInner k feats
+  | .load name rev feats => do
+    let s ← getS
+    let k ← parseLoad (parseFuel s) name rev
+    setImplementedInner k feats
+  | .setImpl k feats => setImplementedInner k feats
+  | _ => pure ()
+
+private theorem forward_of_pre {op : Op} {s : Ctx} {e : Nat} {s1 : Ctx} (h : preForward op s = (.error e, s1)) :
+    forward op s = (.error e, s1) := by
+  cases op with
+  | parse src f =>
+    simp only [preForward, forward, bind_run, getS_run] at h ⊢
+    cases hp : parseIn (parseFuel s) src none s with
+    | mk r t =>
+      rw [hp] at h
+      cases r with
+      | error e' => exact h
+      | ok k => simp only [implementAndCompile, bind_run] at h ⊢; rw [h]
+  | load name rev f =>
+    simp only [preForward, forward, bind_run, getS_run] at h ⊢
+    cases hp : parseLoad (parseFuel s) name rev s with
+    | mk r t =>
+      rw [hp] at h
+      cases r with
+      | error e' => exact h
+      | ok k => simp only [implementAndCompile, bind_run] at h ⊢; rw [h]
+  | setImpl k f =>
+    simp only [preForward, forward, implementAndCompile, bind_run] at h ⊢; rw [h]
+  | compile => simp [preForward, pure_run] at h
+  | setOpt ex pp => simp [preForward, pure_run] at h
+  | unsetOpt ex pp => simp [preForward, pure_run] at h
+
+private theorem presUC_preForward {c : List KC} (op : Op) : Pres (UC c) (preForward op) := by
+  cases op with
+  | parse src f =>
+    unfold preForward
+    exact pres_getBind' fun s => pres_bind ((presUC_parse _).1 _ _) (fun k => presUC_setImplementedInner k f)
+  | load name rev f =>
+    unfold preForward
+    exact pres_getBind' fun s => pres_bind ((presUC_parse _).2 _ _) (fun k => presUC_setImplementedInner k f)
+  | setImpl k f => unfold preForward; exact presUC_setImplementedInner k f
+  | compile => exact pres_pure _
+  | setOpt ex pp => exact pres_pure _
+  | unsetOpt ex pp => exact pres_pure _
+
+/-- **`data_stays_usable` and the compiled schema, for every failure before the compilation stage.**  In a context between two
+    calls (no dependency set pending, modules that are not implemented have no compiled module), a `lys_parse`,
+    `ly_ctx_load_module` or `lys_set_implemented` that fails ANYWHERE before compilation starts — syntax, imports and includes at
+    any depth, name collisions, identity bases, an unknown feature, a second implemented revision, an augment / deviation target
+    module that cannot be implemented, … — leaves every module with exactly the compiled module it had (the same compiled nodes,
+    hence the same content): nothing is freed, nothing is recompiled.  In a LY_CTX_EXPLICIT_COMPILE context (outside a batch) that
+    is every failing call of these three functions. -/
+theorem compiled_untouched_before_compile (s : Ctx) (op : Op) (e : Nat) (s1 : Ctx) (hq : Quiescent s) (hd : s.depSets = [])
+    (hn : ∀ m ∈ s.mods, m.implemented = false → m.compiled = none) (hpre : preForward op s = (.error e, s1)) :
+    (run s op).2.mods.map (fun m => (m.key, m.compiled)) = s.mods.map (fun m => (m.key, m.compiled)) := by
+  have hf := forward_of_pre hpre
+  have hinv : Inv none (restore none s) s := ⟨rfl, hq.keys, hq.flags⟩
+  obtain ⟨k0, hk⟩ := forward_masked op s hinv
+  have hk' : Inv (some k0) (restore (some k0) s) (restoreFeats s op s1) := by
+    have : (restore none s).map (maskCore k0) = restore (some k0) s := by
+      simp only [restore, List.map_map]
+      apply List.map_congr_left
+      intro m _
+      exact (restoredCore_mask _ k0 m).symm
+    rw [this, hf] at hk
+    exact inv_restoreFeats (op := op) hq.noCreating hq.noImplementing hq.keys hk
+  have hu0 : UC (s.mods.map Mod.kc) s := ⟨hd, fun m hm _ => List.mem_map_of_mem hm⟩
+  have hu1 : UC (s.mods.map Mod.kc) s1 := by
+    have := presUC_preForward op s hu0
+    rw [hpre] at this; exact this
+  have hu : UC (s.mods.map Mod.kc) (restoreFeats s op s1) := by
+    rcases restoreFeats_cases s op s1 with e1 | ⟨k1, m1, _, _, e1⟩ <;> rw [e1]
+    · exact hu1
+    · exact hu1.upd k1 _ (fun _ => rfl)
+  have hnone : ∀ x ∈ s.mods.map Mod.kc, (restoreFeats s op s1).implementing.contains x.1 = true → x.2 = none := by
+    intro x hx hin
+    obtain ⟨m, hm, rfl⟩ := List.mem_map.mp hx
+    apply hn m hm
+    cases hmi : m.implemented with
+    | false => rfl
+    | true =>
+      exfalso
+      have hres := hk'.restore
+      rw [restore_quiescent s hq.noCreating hq.noImplementing] at hres
+      have hmem : coreM (some k0) m ∈ restore (some k0) (restoreFeats s op s1) := by
+        rw [hres]; exact List.mem_map_of_mem hm
+      unfold restore at hmem
+      obtain ⟨m1, _, he⟩ := List.mem_map.mp hmem
+      have h1 := congrArg Core.implemented he
+      have h2 := congrArg Core.key he
+      rw [coreM_implemented, hmi] at h1
+      rw [coreM_key] at h2
+      have h3 : (Mod.restoredCore (restoreFeats s op s1).implementing (some k0) m1).key = m1.key := rfl
+      rw [h3] at h2
+      have hc : (restoreFeats s op s1).implementing.contains m1.key = true := by rw [h2]; exact hin
+      simp only [Mod.restoredCore, Bool.and_eq_true, Bool.not_eq_true'] at h1
+      rw [hc] at h1
+      exact absurd h1.2 (by simp)
+  have hrev := revert_kc hq.noCreating hq.noImplementing hq.keys hk' hu hnone
+  have hgoal : ∀ t : Ctx, t.mods = (revert (restoreFeats s op s1)).mods →
+      t.mods.map (fun m => (m.key, m.compiled)) = s.mods.map (fun m => (m.key, m.compiled)) := fun t ht => by rw [ht]; exact hrev
+  unfold run
+  split
+  · rfl
+  · rw [hf]
+    cases op with
+    | parse src f => exact hgoal _ rfl
+    | load name rev f => exact hgoal _ rfl
+    | setImpl k f => exact hgoal _ rfl
+    | compile => simp [preForward, pure_run] at hpre
+    | setOpt ex pp => simp [preForward, pure_run] at hpre
+    | unsetOpt ex pp => simp [preForward, pure_run] at hpre
+
+open LyModel.Ctx.Ex in
+/-- non-vacuity: `aaa@2019-01-01` implemented and compiled; `lys_parse` of `aaa@2020-01-01` gets through `lys_parse_in` (the module
+    is in the context, the old revision has lost its latest flag) and is refused by `lys_implement` — a second implemented
+    revision, LY_EDENIED — before anything is compiled -/
+example : let s := (run (ctx0 [A19, A20]) (.parse A19 none)).2
+    Quiescent s ∧ s.depSets = [] ∧ (∀ m ∈ s.mods, m.implemented = false → m.compiled = none) ∧
+      (s.mods.any fun m => m.compiled.isSome) = true ∧
+      ∃ e s1, preForward (.parse A20 none) s = (.error e, s1) ∧ s1.mods.length = 2 := by
+  refine ⟨Quiescent.ofB (by decide +kernel), by decide +kernel, ?_, by decide +kernel, ?_⟩
+  · have h : ((run (ctx0 [A19, A20]) (.parse A19 none)).2.mods.all fun m => m.implemented || m.compiled.isNone) = true := by
+      decide +kernel
+    intro m hm hi
+    have := (List.all_eq_true.mp h) m hm
+    rw [hi] at this
+    simpa using this
+  · refine ⟨8, (preForward (.parse A20 none) (run (ctx0 [A19, A20]) (.parse A19 none)).2).2, ?_, by decide +kernel⟩
+    have h : rc (preForward (.parse A20 none) (run (ctx0 [A19, A20]) (.parse A19 none)).2).1 = 8 := by decide +kernel
+    cases hp : preForward (.parse A20 none) (run (ctx0 [A19, A20]) (.parse A19 none)).2 with
+    | mk r t =>
+      rw [hp] at h
+      cases r with
+      | ok u => simp [rc] at h
+      | error e' => simp only [rc] at h; rw [h]
 
 /-! ### non-vacuity, and where the full statement fails -/
 
